@@ -112,6 +112,14 @@ class Evaluator:
             base = self.ev(e.value)
             if isinstance(base, SimpleNamespace):
                 if not hasattr(base, e.attr):
+                    sub = self.methods.get(e.attr) if base is self.env.get("self") else None
+                    if sub is not None and any(unparse(d) in ("property", "cached_property", "functools.cached_property")
+                                               for d in getattr(sub, "decorator_list", [])):
+                        # a property of the modelled object, read from the class's own source
+                        return Evaluator(sub, {"self": base}, self.methods, self.max_steps).run()
+                    consts = self.methods.get("__class_assigns__") or {}
+                    if base is self.env.get("self") and e.attr in consts:
+                        return self.ev(consts[e.attr])          # a class-level constant of the modelled object's class
                     raise AnalysisError(f"evaluator: attribute {unparse(e)} is outside the modelled domain")
                 return getattr(base, e.attr)
             raise AnalysisError(f"evaluator: attribute access on {type(base).__name__}")
@@ -179,4 +187,8 @@ class Evaluator:
                         env[k.arg] = self.ev(k.value)
                     return Evaluator(sub, env, self.methods, self.max_steps).run()
             raise AnalysisError(f"evaluator: unsupported call `{unparse(e)[:60]}`")
+        if isinstance(e, ast.NamedExpr) and isinstance(e.target, ast.Name):
+            v = self.ev(e.value)
+            self.env[e.target.id] = v
+            return v
         raise AnalysisError(f"evaluator: unsupported expression `{unparse(e)[:60]}`")
